@@ -133,6 +133,7 @@ func vSyncDir(dir string) error {
 
 // vDurable is what a restart after power loss reads back; vVolatile what a restart after a process kill reads.
 func vDurable(ext string) (uint64, uint64)  { d := vDisk[ext]; return d.dur.v1, d.dur.v2 }
+func vDurableAt(dir, ext string) (uint64, uint64) { return vDurable(vKey(dir, ext)) }
 func vVolatile(ext string) (uint64, uint64) { d := vDisk[ext]; return d.vol.v1, d.vol.v2 }
 
 // ---- building a node by hand (no I/O) ----
